@@ -103,6 +103,30 @@ theorem generated_index_lookup_exact (kind : SrcKind) (o : IdxOpts) (codec : Nat
     exact index_getAll_load codec _ ix' hl hoff c off
 
 
+/-- (4') The same for a whole CARv2 handed to `GenerateIndex` (any paddings, with or without an embedded
+    index, either reader kind): lookups in the generated index are exact for the sections of its payload,
+    offsets relative to the payload. -/
+theorem generated_index_lookup_exact_v2 (kind : SrcKind) (o : IdxOpts) (codec : Nat) (dp ip : Nat)
+    (roots : Option (List Cid)) (bs : List Block) (hasIdx fi : Bool) (index : Bytes)
+    (hwf : (CarHeader.mk roots 1).wf) (hmax : (encodeHeaderBody ⟨roots, 1⟩).length ≤ o.maxHeader)
+    (h63 : (encodeHeaderBody ⟨roots, 1⟩).length < 2 ^ 63) (h10 : 10 ≤ o.maxHeader)
+    (lok : LayoutOK dp ip (payload roots bs).length) (hok : ∀ b ∈ bs, b.idxOk o)
+    (hoff : ∀ r ∈ keptRecords o (headerSize ⟨roots, 1⟩) bs, r.offset < 2 ^ 64)
+    (ix : Index) (hix : generateIndex kind o codec (layoutV2 dp ip (payload roots bs) hasIdx fi index) = .ok ix)
+    (c : Cid) (off : Nat) :
+    off ∈ ix.getAll c ↔
+      ∃ r ∈ keptRecords o (headerSize ⟨roots, 1⟩) bs,
+        (codec = codecMhSorted → r.cid.mhCode = c.mhCode) ∧ r.cid.digest = c.digest ∧ r.offset = off := by
+  unfold generateIndex at hix
+  rw [loadIndexRecords_v2 kind o dp ip roots bs hasIdx fi index hwf hmax h63 h10 lok hok] at hix
+  simp only at hix
+  cases hl : Index.load codec (keptRecords o (headerSize ⟨roots, 1⟩) bs) with
+  | none => simp [hl] at hix
+  | some ix' =>
+    simp only [hl] at hix
+    injection hix with hix
+    subst hix
+    exact index_getAll_load codec _ ix' hl hoff c off
 /-- (6) **`ReadOrGenerateIndex`** on every valid input: a CARv1 and an index-less CARv2 (any paddings) are
     indexed exactly as `GenerateIndex` indexes them — so (1)–(5) apply to the result, offsets relative
     to the payload — and a CARv2 that carries a well-formed index gets that index back unchanged,
